@@ -1,12 +1,158 @@
 """Lean side: build + audit of the proof obligations, and the model driver."""
-import os, subprocess, json
+import os, re, subprocess, json, time, hashlib
 HERE = os.path.dirname(os.path.abspath(__file__))
-LEAN = os.path.join(os.path.dirname(HERE), "lean")
+VERIF = os.path.dirname(HERE)
+LEAN = os.path.join(VERIF, "lean")
+DRIVER = os.path.join(LEAN, ".lake", "build", "bin", "driver")
+ALLOWED_AXIOMS = {"propext", "Classical.choice", "Quot.sound"}
+FORBIDDEN = re.compile(r"\b(sorry|admit|native_decide|bv_decide|implemented_by|unsafe)\b|^\s*axiom\s|maxHeartbeats\s+0\b", re.M)
+
+
+def strip_comments(src):
+    src = re.sub(r"/-.*?-/", "", src, flags=re.S)
+    return re.sub(r"--.*", "", src)
+
+
+def lake(*args, timeout=3000):
+    env = dict(os.environ)
+    p = subprocess.run(["lake"] + list(args), cwd=LEAN, capture_output=True, text=True, timeout=timeout, env=env)
+    return p.returncode, (p.stdout + p.stderr)
+
+
+_BUILD_LOCK = os.path.join(LEAN, ".build.lock")
+
+
+def build(targets):
+    import fcntl
+    os.makedirs(LEAN, exist_ok=True)
+    with open(_BUILD_LOCK, "w") as lk:
+        fcntl.flock(lk, fcntl.LOCK_EX)
+        return lake("build", *targets)
+
+
+def theorem_map():
+    """property id -> theorems serving it, from lean/DynetxProofs/PROPERTIES.json"""
+    p = os.path.join(LEAN, "DynetxProofs", "PROPERTIES.json")
+    if not os.path.exists(p):
+        return {}
+    return json.load(open(p))
+
+
+def audit_sources():
+    bad = []
+    for root, _, files in os.walk(LEAN):
+        if ".lake" in root:
+            continue
+        for f in files:
+            if f.endswith(".lean"):
+                src = strip_comments(open(os.path.join(root, f)).read())
+                for m in FORBIDDEN.finditer(src):
+                    bad.append("%s: %s" % (os.path.relpath(os.path.join(root, f), LEAN), m.group(0).strip()))
+    return bad
+
+
+def print_axioms(theorems):
+    """runs `#print axioms` for the given fully qualified names; returns {name: [axioms]} or raises"""
+    if not theorems:
+        return {}
+    src = "import DynetxProofs\n" + "".join("#print axioms %s\n" % t for t in theorems)
+    h = hashlib.sha1(src.encode()).hexdigest()[:10]
+    path = os.path.join(LEAN, ".lake", "axioms_%s_%d.lean" % (h, os.getpid()))
+    with open(path, "w") as f:
+        f.write(src)
+    try:
+        rc, out = lake("env", "lean", path)
+    finally:
+        try:
+            os.remove(path)
+        except OSError:
+            pass
+    res = {}
+    for m in re.finditer(r"'([^']+)' depends on axioms: \[([^\]]*)\]", out, flags=re.S):
+        res[m.group(1)] = [a.strip() for a in m.group(2).replace("\n", " ").split(",") if a.strip()]
+    for m in re.finditer(r"'([^']+)' does not depend on any axioms", out):
+        res[m.group(1)] = []
+    missing = [t for t in theorems if t not in res]
+    return res, missing, (out if (rc != 0 or missing) else "")
+
+
+TRUSTED = [
+    "Lean 4.33.0 kernel (lake build; thorough tier re-checks the .olean files with leanchecker)",
+    "axioms: at most propext, Classical.choice, Quot.sound (audited by #print axioms on every run); no native_decide, no bv_decide, no sorry/admit, no axioms of our own",
+    "the hand-written model lean/DynetxModel/*.lean and the reading of the property into the statements of lean/DynetxProofs/Properties.lean",
+    "the correspondence check: harness generators, canonicalisation and the compiled driver (Lean compiler + runtime, not the kernel)",
+    "modelled, not verified: CPython dict/list/range/sorted/int semantics, networkx nbunch_iter/has_edge/add_nodes_from/all_simple_paths/density, str.strip/split/find/int, json, gzip/bz2/open, copy.deepcopy, IEEE-754 floats (the model computes exact rationals; comparison tolerance 1e-9)",
+]
 
 
 def obligations(pid, tier):
-    return {"ok": True, "theorems": [], "driver_ok": False, "note": "lean project not built yet"}
+    t0 = time.time()
+    res = {"ok": True, "theorems": [], "driver_ok": True, "trusted_base": TRUSTED, "assumptions": [],
+           "checker_cmd": "cd /verif/lean && lake build DynetxModel DynetxProofs driver && lake env lean <#print axioms file>"}
+    targets = ["DynetxModel", "driver"]
+    tm = theorem_map()
+    mine = tm.get(pid, {})
+    if tm:
+        targets.append("DynetxProofs")
+    rc, out = build(targets)
+    if rc != 0:
+        # model/driver build and proof build are separated so that a broken proof does not hide the driver
+        rc2, out2 = build(["DynetxModel", "driver"])
+        res["driver_ok"] = rc2 == 0 and os.path.exists(DRIVER)
+        res["ok"] = False
+        res["error"] = out[-4000:]
+        res["failed"] = sorted(set(re.findall(r"error: ([^\n]*)", out)))[:20]
+        res["theorems"] = []
+        return res
+    bad = audit_sources()
+    if bad:
+        res["ok"] = False
+        res["error"] = "forbidden keyword in Lean sources: " + "; ".join(bad[:10])
+        res["failed"] = bad[:10]
+        return res
+    ths = mine.get("theorems", [])
+    if ths:
+        ax, missing, err = print_axioms(ths)
+        res["axioms"] = ax
+        offending = {t: a for t, a in ax.items() if not set(a) <= ALLOWED_AXIOMS}
+        if missing or offending:
+            res["ok"] = False
+            res["error"] = "axiom audit: missing=%s offending=%s\n%s" % (missing, offending, err[-2000:])
+            res["failed"] = missing + list(offending)
+            return res
+    res["theorems"] = ths
+    res["partial"] = mine.get("partial", [])
+    res["assumptions"] = mine.get("assumptions", [])
+    if tier == "thorough" and ths and os.environ.get("VERIF_SKIP_LEANCHECKER") != "1":
+        rc, out = lake("env", "leanchecker", *mine.get("modules", ["DynetxProofs"]), timeout=3000)
+        res["leanchecker"] = "ok" if rc == 0 else out[-1500:]
+        if rc != 0:
+            res["ok"] = False
+            res["error"] = "leanchecker: " + out[-2000:]
+            res["failed"] = ["leanchecker"]
+    res["build_s"] = round(time.time() - t0, 1)
+    return res
 
 
 def run_driver(blocks):
-    raise RuntimeError("no driver")
+    """blocks: list of line lists; returns list of parsed output lists (same shape)"""
+    if not os.path.exists(DRIVER):
+        raise RuntimeError("driver not built")
+    lines = []
+    for b in blocks:
+        lines.append("reset")
+        lines += b
+    p = subprocess.run([DRIVER], input="\n".join(lines) + "\n", capture_output=True, text=True, timeout=1200)
+    if p.returncode != 0:
+        raise RuntimeError("driver exit %d: %s" % (p.returncode, p.stderr[-500:]))
+    outs = p.stdout.split("\n")
+    if outs and outs[-1] == "":
+        outs.pop()
+    if len(outs) != len(lines):
+        raise RuntimeError("driver produced %d lines for %d ops" % (len(outs), len(lines)))
+    res, i = [], 0
+    for b in blocks:
+        i += 1
+        res.append([json.loads(x) for x in outs[i:i + len(b)]])
+        i += len(b)
+    return res
